@@ -445,6 +445,49 @@ def rule_a9(chk: Check, tr):
                     f"(PO=pos-only, POD=pos-only with default, ND=no default, D=with default, KW=kw-only; p=parameter d=default)")
 
 
+def rule_kind_guard(chk: Check):
+    """Constant.kind: 'u' exactly when the first string token starts with a lower-case `u` (CPython's rule).  The guard
+    expression is evaluated over the finite domain of all string prefixes the tokenizer accepts."""
+    import copy
+    from .. import constfold
+    sub = parse_py(repo.SUBHEADER)
+    parser = repo.find_class(sub, "Parser")
+    fn = repo.find_func(parser, "_concat_strings_in_constant")
+    guards = [n for n in ast.walk(fn) if isinstance(n, ast.If) and any(
+        isinstance(s, ast.Assign) and "kind" in norm_stmt(s.targets[0]) and isinstance(s.value, ast.Constant) and s.value.value == "u"
+        for s in n.body)]
+    chk.count("A6-kind-u")
+    where = f"{repo.SUBHEADER}:{fn.lineno}"
+    if len(guards) != 1:
+        chk.fail("A6-kind-u", "Parser._concat_strings_in_constant:kind", where, "no single guard sets Constant.kind = 'u'")
+        return
+
+    class Sub(ast.NodeTransformer):
+        def visit_Attribute(self, node):
+            if norm_stmt(node) == "parts[0].string":
+                return ast.copy_location(ast.Name("_s", ast.Load()), node)
+            return self.generic_visit(node)
+
+    test = Sub().visit(copy.deepcopy(guards[0].test))
+    ast.fix_missing_locations(test)
+    folded = constfold.fold_tokenize()
+    prefixes = sorted(folded.ns["_all_string_prefixes"]())  # type: ignore[attr-defined]
+    bad = []
+    for p in prefixes:
+        for q in ('"', "'", '"""'):
+            tok = f"{p}{q}x{q}"
+            try:
+                got = bool(constfold.fold_expr(test, {"_s": tok}))
+            except Exception as e:
+                raise AnalysisError(f"kind guard `{norm_stmt(guards[0].test)}` cannot be evaluated: {e}")
+            if got != tok.startswith("u"):
+                bad.append((tok, got))
+    chk.units["string_prefixes_evaluated"] = len(prefixes) * 3
+    chk.require(not bad, "A6-kind-u", "Parser._concat_strings_in_constant:kind", where,
+                f"the guard `{norm_stmt(guards[0].test)}` sets kind='u' differently from CPython (which looks for a lower-case u as the "
+                f"first character) on {[b[0] for b in bad][:4]}")
+
+
 def mk(vs):
     from ..absval import mk_union
     return mk_union(vs)
@@ -482,6 +525,7 @@ def run(chk: Check):
     rule_a5_span(chk)
     rule_a7_a8(chk, ir)
     rule_a9(chk, tr)
+    rule_kind_guard(chk)
     chk.floor("A5-loc-key", 300)
     chk.floor("A6-scalar-kind", 60)
     chk.floor("A2-no-lost-capture", 150)
